@@ -235,7 +235,7 @@ Proof. eexists. split; [vm_compute; reflexivity|]. split; vm_compute; reflexivit
       is a plain IRI; requested target classes are class IRIs;
     - the class IRIs (targets, objects of typing triples) have pairwise
       distinct labels (else: C05-F2). *)
-From Shexer Require Import Model.Tracker Model.Profiler Proofs.EndToEnd Proofs.EndToEnd2 Proofs.RunWitness
+From Shexer Require Import Model.Tracker Model.Profiler Proofs.Bin64Round Proofs.EndToEnd Proofs.EndToEnd2 Proofs.RunWitness
      Proofs.InputLevel.
 
 Theorem C05_input_ok_unfold : forall c g, c05_input_ok c g = true ->
@@ -341,3 +341,62 @@ Example C05_run_wellformed_applies :
   exists text, run_shexc BAlg (fst c05_in1) (b_ratio 0 1) (snd c05_in1) = inl text /\
                recognise text = true /\ wellformed_closed text = true.
 Proof. apply C05_run_wellformed. vm_compute. reflexivity. Qed.
+
+(** binary64, thresholds <= 1, fewer than 2^53 triples: ANY setting of the
+    options.  [c05_input_ok_le1] is [c05_input_ok] without condition (iii) of
+    [valid_input] (disjunctions disabled or empty shapes kept; the free
+    prefix is implied by [full_ns c = Some _]). *)
+Theorem C05_input_ok_le1_unfold : forall c g,
+  (c05_input_ok c g = valid_input c g && c05_core_ok c g) /\
+  (c05_input_ok_le1 c g = typing_okb (r_tau c) g && forallb (sentinel_free (r_tau c)) g && c05_core_ok c g).
+Proof. split; reflexivity. Qed.
+
+Theorem C05_run_wellformed_any_options : forall c thr g,
+  c05_input_ok_le1 c g = true ->
+  wf_frac thr -> fle BAlg thr (fone BAlg) = true -> (N.of_nat (List.length g) < 2 ^ 53)%N ->
+  exists text, run_shexc BAlg c thr g = inl text /\ recognise text = true /\ wellformed_closed text = true.
+Proof. exact run_wellformed_le1. Qed.
+Print Assumptions C05_run_wellformed_any_options.
+
+(** disjunctions enabled AND remove_empty_shapes on: outside [c05_input_ok],
+    inside [c05_input_ok_le1] *)
+Definition c05_rw_cfg2 : rcfg :=
+  {| r_tau := c_RDF_TYPE; r_targets := None; r_ns := [(Str "http://ex.org/", Str "ex")];
+     r_shapes_ns := c_SHAPES_DEFAULT_NAMESPACE; r_cap := (-1)%Z;
+     r_inverse := true; r_remove_empty := true; r_discard_useless := true; r_keep_less_specific := true;
+     r_all_compliant := true; r_disable_or := false; r_allow_redundant_or := false; r_allow_opt := true;
+     r_disable_exact := false; r_disable_comments := false; r_mode := FMixed |}.
+
+Example C05_any_options_nonvacuous :
+  c05_input_ok c05_rw_cfg2 g_reftie_1 = false /\ c05_input_ok_le1 c05_rw_cfg2 g_reftie_1 = true.
+Proof. split; vm_compute; reflexivity. Qed.
+
+(** the sentinel hypothesis of A1 is needed: a literal whose datatype starts
+    with '%' is stored as a type key that reads as a reference *)
+Definition c05_g_sentinel : graph :=
+  [T (c05_iri "http://ex.org/a") c_RDF_TYPE (ON (c05_iri "http://ex.org/C"));
+   T (c05_iri "http://ex.org/a") (Str "http://ex.org/p") (OL (Str "v") (Str "%x"))].
+
+Definition c05_I_sentinel : insts := [(Str "http://ex.org/a", [Str "http://ex.org/C"])].
+
+Lemma C05_profile_refs_sentinel_needed :
+  exists c g I P C ID,
+    track (r_tau c) (mode_of c) (r_cap c) g = inl I /\ profile (pcfg_of c) I g = inl (P, C, ID) /\
+    ~ ClosureLemmas.profile_refs_closed P.
+Proof.
+  destruct (profile (pcfg_of (fst c05_in1)) c05_I_sentinel c05_g_sentinel) as [[[P C] ID]|e] eqn:EP;
+    vm_compute in EP; [|discriminate EP]. injection EP as <- <- <-.
+  eexists (fst c05_in1), c05_g_sentinel, c05_I_sentinel, _, _, _.
+  split; [vm_compute; reflexivity|]. split; [vm_compute; reflexivity|].
+  intros H.
+  match type of H with ClosureLemmas.profile_refs_closed ?P =>
+    match P with (?cl, ?e) :: _ => specialize (H cl e (Str "%x") (or_introl eq_refl)) end end.
+  destruct H as (c' & Hc' & E).
+  - match goal with |- ClosureLemmas.entry_key ?e _ =>
+      match eval cbv [c_direct] in (c_direct e) with
+      | _ :: (?p, ?m) :: _ => match m with (?k, ?cd) :: _ => exists p, m, cd end
+      end end.
+    split; [left; right; left; reflexivity | left; reflexivity].
+  - reflexivity.
+  - destruct Hc' as [<-|[]]. vm_compute in E. discriminate E.
+Qed.
